@@ -1,1 +1,2 @@
+import RallyProps.C02
 import RallyProps.C15
